@@ -243,7 +243,9 @@ class SimSocket:
             if self._closed:
                 raise OSError(errno.EBADF, "Bad file descriptor")
         if not c.rx and not c.client_shutdown:
-            if self._timeout == 0:
+            if self._timeout == 0 or getattr(self, "os_nonblocking", False):
+                # os_nonblocking: the descriptor is non-blocking at the OS level although the Python-level timeout is not 0
+                # (O_NONBLOCK shared through dup()/fromfd(), an event loop that owns the descriptor)
                 self._log("recv", bufsize, "EAGAIN")
                 raise BlockingIOError(errno.EAGAIN, "Resource temporarily unavailable")
             if s is None:
@@ -357,6 +359,55 @@ class SimSocket:
         while data:
             n = self.send(data)
             data = data[n:]
+
+    # ---- the rest of the socket API a client library may reasonably use (same semantics, built on recv()/send()) ----
+    def recv_into(self, buffer, nbytes=0, flags=0):
+        mv = memoryview(buffer).cast("B")
+        n = nbytes or len(mv)
+        data = self.recv(n, flags)
+        mv[: len(data)] = data
+        return len(data)
+
+    def sendmsg(self, buffers, ancdata=(), flags=0, address=None):
+        # one gathering write: the kernel accepts a prefix of the concatenation
+        return self.send(b"".join(bytes(b) for b in buffers), flags)
+
+    def recvmsg(self, bufsize, ancbufsize=0, flags=0):
+        return self.recv(bufsize, flags), [], 0, None
+
+    _io_refs = 0
+
+    def _decref_socketios(self):
+        if self._io_refs > 0:
+            self._io_refs -= 1
+
+    def makefile(self, mode="r", buffering=None, *, encoding=None, errors=None, newline=None):
+        import io
+        if not set(mode) <= {"r", "w", "b"}:
+            raise ValueError("invalid mode %r (only r, w, b allowed)" % (mode,))
+        writing, reading, binary = "w" in mode, "r" in mode or "w" not in mode, "b" in mode
+        rawmode = ("r" if reading else "") + ("w" if writing else "")
+        raw = _socket.SocketIO(self, rawmode)
+        self._io_refs += 1
+        if buffering is None:
+            buffering = -1
+        if buffering < 0:
+            buffering = io.DEFAULT_BUFFER_SIZE
+        if buffering == 0:
+            if not binary:
+                raise ValueError("unbuffered streams must be binary")
+            return raw
+        if reading and writing:
+            buf = io.BufferedRWPair(raw, raw, buffering)
+        elif reading:
+            buf = io.BufferedReader(raw, buffering)
+        else:
+            buf = io.BufferedWriter(raw, buffering)
+        if binary:
+            return buf
+        text = io.TextIOWrapper(buf, encoding, errors, newline)
+        text.mode = mode
+        return text
 
     def shutdown(self, how):
         c = self.conn
